@@ -8,7 +8,7 @@ from ..chains import extract_chains
 from ..core import AnalysisError, call_attr, call_name, calls_in, func_params, norm, parent, short
 from ..driver import Knockout, sub_nth, sub_once
 from ..report import Ctx
-from ..rules import gatesum, tables
+from ..rules import gatesum, loops, tables
 from ..rules.tables import LCE
 
 LCC = "graphiq/backends/stabilizer/functions/local_cliff_equi_check.py"
@@ -24,6 +24,9 @@ EXPLANATION = (
     "str_to_op (vocab.gates); lc_check's inversion maps every non-self-inverse tag that can reach it to its Clifford "
     "inverse and reverses the list; Graph.local_complementation toggles exactly the pairs of neighbours of the chosen "
     "vertex (lc.toggle: combinations(neighbours, 2), has_edge -> remove_edge else add_edge, no other edge mutation). "
+    "The random search hands _vec_solution_finder (which fills its argument in place) a vector created in the same trial "
+    "(trial.fresh, reaching definitions over the loop's back edge); _is_valid_clifford reduces the block determinants mod 2 "
+    "before testing their truth (gf2.truth). "
     "Does not decide soundness/completeness of is_lc_equivalent, the R-matrix reduction, or local_comp_graph's matrix formula.")
 
 
@@ -39,6 +42,8 @@ def run(ctx: Ctx) -> None:
                       "run_circuit", handled, extra_tokens=tables.gl22_tokens(repo))
     rule_lc_check_inversion(ctx)
     rule_lc_toggle(ctx)
+    loops.rule_trial_fresh(ctx, LCE)
+    loops.rule_gf2_truth(ctx, LCE, "_is_valid_clifford")
     ctx.floor("table.gl22", 7)
     ctx.floor("vocab.gates", 6)
 
@@ -168,6 +173,12 @@ def rule_lc_toggle(ctx: Ctx) -> None:
 
 
 KNOCKOUTS = [
+    Knockout("det-not-reduced", LCE, sub_once("checklist.append(int(determinant_of_clifford % 2))", "checklist.append(int(determinant_of_clifford))"), "gf2.truth", "unreduced"),
+    Knockout("trial-vector-hoisted", LCE, sub_once("""    for j in range(trial_count):
+        rand_var_vec = np.zeros((4 * n, 1))
+""", """    rand_var_vec = np.zeros((4 * n, 1))
+    for j in range(trial_count):
+"""), "trial.fresh", "shared across iterations"),
     Knockout("E4-duplicate-identity", LCE, sub_once("php = np.array([[1, 0], [1, 1]])", "php = np.array([[1, 0], [0, 1]])"), "table.gl22", "GL(2,2)"),
     Knockout("E4-wrong-name", LCE, sub_once('"P H", "H P_dag", "P H P"]', '"H P", "H P_dag", "P H P"]'), "table.gl22", "'H P'"),
     Knockout("F1-token-order", LCC, sub_once("for op in ops.split()[::-1]:", "for op in ops.split():"), "order.wrapper", "converter_gate_list"),
